@@ -120,6 +120,7 @@ func (s *standardJT808DataHandle) OnPackageProgressEvent(progress *PackageProgre
 	case consts.T1212FileUploadComplete:
 		name := s.T0x1212.FileName
 		if v, ok := progress.Record[name]; ok {
+			progress.ExtensionFields.CurrentPackage = v // 没有收到过码流数据时也有当前包
 			s.T0x1212.P0x9212RetransmitPacketList = v.StatisticalMissSegments()
 			if len(s.T0x1212.P0x9212RetransmitPacketList) > 0 {
 				progress.ProgressStage = ProgressStageSupplementary
